@@ -215,7 +215,152 @@ def run_wrapper_exception_probe():
     return bad
 
 
-PROBES = {"reused-message": reused_message_probe, "locate": locate_probe, "run-wrapper-exception": run_wrapper_exception_probe}
+# ----------------------------------------------------------------------------- C24: relative moves on devices outside the Lean model
+def relative_moves_probe():
+    """relative plans on (a) a real axis that is a CHILD of an ophyd PseudoPositioner and (b) a Locatable device whose
+    setpoint is exactly 0 while its readback differs: targets are initial setpoint + offset, and the device is commanded
+    back to its initial position at the end, on success and on failure"""
+    import bluesky.plan_stubs as bps
+    import bluesky.plans as bp
+    from bluesky.utils import Msg
+
+    bad = []
+
+    def sets_on(msgs, dev):
+        return [float(m.args[0]) for m in msgs if m.command == "set" and m.obj is dev]
+
+    # (a) child axis of a PseudoPositioner
+    try:
+        from ophyd.sim import hw as make_hw
+    except Exception:  # noqa
+        make_hw = None
+    if make_hw is not None:
+        for variant in ("rel_scan", "mvr", "rel_scan-fails"):
+            hw = make_hw()
+            RE, docs = _engine()
+            msgs = []
+            RE.msg_hook = msgs.append
+            p = hw.pseudo3x3
+            _run(RE, bps.mv(p.pseudo1, 5, p.pseudo2, 6, p.pseudo3, 7))
+            msgs.clear()
+            x0 = float(p.real1.position)
+            case = {"probe": "relative-moves", "device": "pseudo3x3.real1", "variant": variant}
+            if variant == "rel_scan":
+                _run(RE, bp.rel_scan([hw.det], p.real1, -1, 1, 3))
+                want = [x0 - 1, x0, x0 + 1, x0]
+            elif variant == "mvr":
+                _run(RE, bps.mvr(p.real1, 1.5))
+                want = [x0 + 1.5]
+            else:
+                n = {"k": 0}
+
+                def step(detectors, step, pos_cache, n=n):
+                    n["k"] += 1
+                    yield from bps.one_nd_step(detectors, step, pos_cache)
+                    if n["k"] == 2:
+                        raise RuntimeError("injected failure in step 2")
+
+                _run(RE, bp.rel_scan([hw.det], p.real1, -1, 1, 3, per_step=step))
+                want = [x0 - 1, x0, x0]
+            got = sets_on(msgs, p.real1)
+            if got != want:
+                bad.append((f"relative-move-of-pseudo-positioner-child:{variant}", f"{variant} over pseudo3x3.real1 starting at {x0}: set values {got}, expected {want}", case))
+
+    # (b) Locatable with setpoint 0 and a different readback
+    class Loc:
+        parent = None
+
+        def __init__(self, name, setpoint, readback):
+            self.name, self.sp, self.rb = name, setpoint, readback
+
+        def set(self, value):
+            self.sp = value
+            self.rb = value + 0.25
+            st = _Status()
+            st.finish(True)
+            return st
+
+        async def locate(self):
+            return {"setpoint": self.sp, "readback": self.rb}
+
+        def read(self):
+            return {self.name: {"value": self.rb, "timestamp": 0.0}}
+
+        def describe(self):
+            return {self.name: {"source": "sim", "dtype": "number", "shape": []}}
+
+        def read_configuration(self):
+            return {}
+
+        def describe_configuration(self):
+            return {}
+
+    for sp0 in (0, 0.0, 5.0, -2.0):
+        for variant in ("mvr", "rel_scan"):
+            m = Loc("loc", sp0, sp0 + 0.25)
+            RE, docs = _engine()
+            msgs = []
+            RE.msg_hook = msgs.append
+            if variant == "mvr":
+                _run(RE, bps.mvr(m, 1.5))
+                want = [sp0 + 1.5]
+            else:
+                _run(RE, bp.rel_scan([], m, -1, 1, 3))
+                want = [sp0 - 1, sp0, sp0 + 1, sp0]
+            got = sets_on(msgs, m)
+            if got != want:
+                bad.append((f"relative-move-of-locatable:setpoint-{sp0!r}:{variant}", f"{variant} on a Locatable with setpoint {sp0!r}, readback {sp0 + 0.25}: set values {got}, expected {want}", {"probe": "relative-moves", "device": "locatable", "setpoint": sp0, "variant": variant}))
+    return bad
+
+
+# ----------------------------------------------------------------------------- C09: a pending deferred pause and the NEXT plan
+def stale_deferred_pause_probe():
+    """a deferred pause requested after a plan's last checkpoint stays pending until the plan ends -- and is dropped when the
+    next plan starts: the next plan is not paused at its first checkpoint by a request nobody made for it"""
+    from bluesky.utils import Msg, RunEngineInterrupted
+
+    bad = []
+    for how in ("message", "request"):
+        RE, docs = _engine()
+
+        def plan1(how=how, RE=RE):
+            yield Msg("checkpoint")
+            yield Msg("null")
+            if how == "message":
+                yield Msg("pause", None, defer=True)
+            else:
+                RE.loop.call_soon(lambda: RE.loop.create_task(RE._request_pause_coro(True)))
+                yield Msg("sleep", None, 0.05)
+            yield Msg("null")
+
+        def plan2():
+            yield Msg("checkpoint")
+            yield Msg("null")
+            yield Msg("checkpoint")
+            yield Msg("null")
+
+        out1 = _run(RE, plan1())
+        pending = bool(RE.deferred_pause_requested)
+        case = {"probe": "stale-deferred-pause", "how": how}
+        if out1[0] != "return" or not pending:
+            bad.append(("deferred-request-not-pending-after-plan-without-checkpoint", f"first plan ended with {out1[0]} {type(out1[1]).__name__ if out1[1] else ''}; deferred_pause_requested = {pending}", case))
+        out2 = _run(RE, plan2())
+        st = str(RE.state)
+        if out2[0] != "return" or st != "idle":
+            bad.append(("stale-deferred-pause-hits-the-next-plan", f"a deferred pause was requested ({how}) after the last checkpoint of plan 1, which completed; plan 2 (checkpoint, null, checkpoint, null) then ended with {out2[0]} {type(out2[1]).__name__ if out2[1] else ''}, state {st!r}", case))
+            if st == "paused":
+                with contextlib.suppress(Exception):
+                    _run_call(RE.halt)
+    return bad
+
+
+def _run_call(f):
+    buf = io.StringIO()
+    with contextlib.redirect_stdout(buf), contextlib.redirect_stderr(buf):
+        return f()
+
+
+PROBES = {"relative-moves": relative_moves_probe, "stale-deferred-pause": stale_deferred_pause_probe, "reused-message": reused_message_probe, "locate": locate_probe, "run-wrapper-exception": run_wrapper_exception_probe}
 
 
 def add_to(res, names):
